@@ -25,7 +25,7 @@ def maxKeySize : Nat := 64                -- stackitem.MaxKeySize
 inductive Item where
   | null
   | bool (b : Bool)
-  | int (n : Int)
+  | int (n : Int256)                      -- range-checked, see `checkInt`
   | bytes (b : Bytes)                     -- ByteString, immutable
   | buffer (id : Nat)
   | array (id : Nat)
@@ -39,7 +39,7 @@ inductive HeapObj where
   | buf (b : Bytes)
   | items (xs : List Item)                -- Array and Struct
   | entries (kv : List (Item × Item))     -- Map, in insertion order
-deriving Repr, Inhabited
+deriving DecidableEq, Repr, Inhabited
 
 abbrev Heap := Array HeapObj
 
@@ -81,21 +81,21 @@ def Item.typeByte : Item → UInt8
 def Item.toBool : Item → Option Bool
   | .null => some false
   | .bool b => some b
-  | .int n => some (n != 0)
+  | .int n => some (n.val != 0)
   | .bytes b => if b.length > maxIntBytes then none else some (b.any (· != 0))
   | _ => some true
 
 /-- `TryInteger` (a Buffer is *not* convertible implicitly). -/
 def Item.toInteger : Item → Option Int
   | .bool b => some (if b then 1 else 0)
-  | .int n => some n
+  | .int n => some n.val
   | .bytes b => if b.length > maxIntBytes then none else some (fromBytes b)
   | _ => none
 
 /-- `TryBytes`. -/
 def Item.toBytes (h : Heap) : Item → Option Bytes
   | .bool b => some [if b then 1 else 0]
-  | .int n => some (Vm.toBytes n)
+  | .int n => some (Vm.toBytes n.val)
   | .bytes b => some b
   | .buffer id => h.getBuf id
   | _ => none
@@ -240,7 +240,8 @@ def convert (h : Heap) (x : Item) (t : UInt8) : Option (Heap × Item) :=
     else if t == tBuffer then some (h, x)
     else if t == tByteString then (h.getBuf id).map fun b => (h, .bytes b)
     else if t == tInteger then
-      (h.getBuf id).bind fun b => if b.length > maxIntBytes then none else some (h, .int (fromBytes b))
+      (h.getBuf id).bind fun b =>
+        if b.length > maxIntBytes then none else (checkInt (fromBytes b)).map fun n => (h, .int n)
     else none
   | .array id =>
     if t == tArray then some (h, x)
